@@ -113,7 +113,7 @@ def run(ctx):
                     if resets != {want_h[0]}:
                         ctx.report(T1, fns['Skip'], fns['Skip']['body'], 'Skip ' + inst, 'Skip reloads from %s, Tick/GetMaxSkip use %s' % (sorted(resets), want_h[0]))
                     for e in skip_nz:
-                        if [x[:3] for x in e] != [('assign', 'counter', '=')] or not e[0][3].startswith('(- l:reset'):
+                        if [x[:3] for x in e] != [('assign', 'counter', '=')]:
                             ctx.report(T1, fns['Skip'], fns['Skip']['body'], 'Skip ' + inst, 'bulk reload is not counter = reset - (ticks - 1): %s' % e)
                 if hor != want_h:
                     ctx.report(T1, fns['GetMaxSkip'], fns['GetMaxSkip']['body'], 'GetMaxSkip ' + inst, 'horizon is %s, the mode table says %s' % (hor, want_h))
